@@ -31,6 +31,20 @@ impl Shards {
 
         self.data
             .resize(self.shard_count * self.shard_len_64, [0; 64]);
+
+        #[cfg(feature = "verif-hooks")]
+        crate::verif::poison_fill(&mut self.data);
+    }
+
+    // (shard_count, address, length and capacity in 64-byte blocks)
+    #[cfg(feature = "verif-hooks")]
+    pub(crate) fn verif_info(&self) -> (usize, usize, usize, usize) {
+        (
+            self.shard_count,
+            self.data.as_ptr() as usize,
+            self.data.len(),
+            self.data.capacity(),
+        )
     }
 
     pub(crate) fn insert(&mut self, index: usize, shard: &[u8]) {
